@@ -244,8 +244,10 @@ fn judge_syntax(t: &mut Tally, src: F, bytes: &[u8]) {
 		for to in F::STREAMING {
 			let o = run_mode(bytes, Some(src), to, mode);
 			t.evaluations += 1;
-			if o.panic.is_some() {
-				return; // C04's business
+			if let Some(p) = &o.panic {
+				// a panic is no error text at all: the cause C11 asks for was not reported
+				t.bad(format!("panic-instead-of-error:syntax:{}", to.name()), input_case(src, bytes, reader), format!("{} ({}) -> {} [{}] panicked: {p}", show(bytes), src.name(), to.name(), mode.name()));
+				return;
 			}
 			if o.ok {
 				any_ok = true;
@@ -351,7 +353,9 @@ fn judge_refusal(t: &mut Tally, v: &V, to: F, what: &str) {
 			let mode = if reader { Mode::Reader3 } else { Mode::Slice };
 			let o = run_mode(&bytes, Some(src), to, mode);
 			t.evaluations += 1;
-			if o.panic.is_some() {
+			if let Some(p) = &o.panic {
+				let case = json!({"kind": "refusal", "src": src.name(), "to": to.name(), "bytes_hex": hex(&bytes), "text": show(&bytes), "reader": reader, "value": v.dump()});
+				t.bad(format!("panic-instead-of-error:refusal:{}", to.name()), case, format!("{what}: {} ({}) -> {} ({}) panicked instead of returning the serializer's reason {:?}: {p}", show(&bytes), src.name(), to.name(), mode.name(), reasons));
 				continue;
 			}
 			let case = json!({"kind": "refusal", "src": src.name(), "to": to.name(), "bytes_hex": hex(&bytes), "text": show(&bytes), "reader": reader, "value": v.dump()});
@@ -410,8 +414,10 @@ fn judge_writer(t: &mut Tally, v: &V, what: &str) {
 					let (w, _) = FailAtWriter::new(k);
 					let (ok, err, panic) = if reader { run_reader_to(ChunkReader::new(&bytes, 0), Some(src), to, w) } else { run_slice_to(&bytes, Some(src), to, w) };
 					t.evaluations += 1;
-					if panic.is_some() {
-						continue; // C04/C12 judge panics
+					if let Some(p) = &panic {
+						let case = json!({"kind": "writer", "src": src.name(), "to": to.name(), "bytes_hex": hex(&bytes), "text": show(&bytes), "k": k, "reader": reader, "value": v.dump()});
+						t.bad(format!("panic-instead-of-error:writer:{}", to.name()), case, format!("{what}: {} ({}) -> {} with the writer failing at byte {k} [{}] panicked: {p}", show(&bytes), src.name(), to.name(), if reader { "reader" } else { "slice" }));
+						continue;
 					}
 					if ok {
 						// no error at all: the cause of the failed write was certainly not reported
